@@ -6,8 +6,12 @@ package main
 import (
 	"fmt"
 	"os"
+	"regexp"
+	"runtime/debug"
 	"runtime/pprof"
 	"sort"
+
+	"verif/harness/tr"
 )
 
 type cmdFn func(args []string) int
@@ -48,4 +52,24 @@ func usage() {
 func die(format string, a ...interface{}) {
 	fmt.Fprintf(os.Stderr, "vh: "+format+"\n", a...)
 	os.Exit(2)
+}
+
+var nitroFrame = regexp.MustCompile(`(?m)^(github\.com/couchbase/nitro[^\s(]*(?:\([^)]*\)[^\s(]*)*)\(`)
+
+// guarded runs f, which drives the code under test from this goroutine.  A panic raised by a legal call
+// sequence is behaviour of the real code: it becomes a "Panic" event (judged by the trace specification)
+// instead of killing the driver.
+func guarded(t *tr.W, f func()) (panicked bool) {
+	defer func() {
+		if x := recover(); x != nil {
+			panicked = true
+			where := ""
+			if m := nitroFrame.FindSubmatch(debug.Stack()); m != nil {
+				where = string(m[1])
+			}
+			t.Emit(tr.Ev{"e": "Panic", "msg": fmt.Sprint(x), "where": where})
+		}
+	}()
+	f()
+	return false
 }
